@@ -115,7 +115,7 @@ func exploreScenario(r *report.Run, sc *e3Scenario, maxBound int, deadline time.
 					fails = append(fails, e3Fail{"livelock", fmt.Sprintf("more than %d steps", sc.MaxSteps)})
 				}
 				if len(fails) == 0 {
-					fails = sc.Check(sys, x)
+					fails = append(poolFaults(x), sc.Check(sys, x)...)
 				}
 				if len(fails) == 0 {
 					st.Outcomes[outcomeKey(x)]++
@@ -138,7 +138,7 @@ func exploreScenario(r *report.Run, sc *e3Scenario, maxBound int, deadline time.
 							again = append(again, e3Fail{"deadlock", xr.DeadInfo})
 						}
 						if len(again) == 0 && !xr.Livelock {
-							again = sc.Check(sr, xr)
+							again = append(poolFaults(xr), sc.Check(sr, xr)...)
 						}
 						for _, a := range again {
 							if a.Oracle == f.Oracle {
@@ -208,6 +208,16 @@ func exploreScenario(r *report.Run, sc *e3Scenario, maxBound int, deadline time.
 		st.BoundCompleted = bound
 	}
 	return st
+}
+
+// poolFaults reports the pool-discipline marks the sync.Pool shim left in the execution log.
+func poolFaults(x *sched.S) []e3Fail {
+	for _, l := range x.Log {
+		if i := strings.Index(l, "POOL-DOUBLE-PUT"); i >= 0 {
+			return []e3Fail{{"pool-double-put", l[i:]}}
+		}
+	}
+	return nil
 }
 
 // outcomeKey summarises what an execution observed (log lines marked "obs:").
